@@ -248,7 +248,9 @@ func (ex *Exec) builtin(st *State, name string, e *ast.CallExpr) []*Val {
 			st.assume(eq(ex.D.app("chan.cap", SInt, ref), cp))
 			return one(&Val{T: t, Term: ref})
 		case *types.Map:
-			return one(&Val{T: t, Term: ex.newRef(st)})
+			ref := ex.newRef(st)
+			ex.mapInitEmpty(st, u, ref)
+			return one(&Val{T: t, Term: ref})
 		}
 	case "new":
 		t := ex.typeOf(e.Args[0])
@@ -278,8 +280,23 @@ func (ex *Exec) builtin(st *State, name string, e *ast.CallExpr) []*Val {
 		ex.runHooks(st, "close", exprText(e.Args[0]), []*Val{ch}, nil, e.Pos())
 		return nil
 	case "delete":
-		for _, a := range e.Args {
-			ex.expr(st, a)
+		m := ex.expr(st, e.Args[0])
+		k := ex.expr(st, e.Args[1])
+		if mt, ok := m.T.Underlying().(*types.Map); ok && m.Term != nil {
+			k = ex.coerce(st, k, mt.Key())
+			if k.Term != nil {
+				// deleting from a nil map is a no-op
+				keep := st.clone()
+				ex.mapDelete(st, mt, m.Term, k.Term)
+				isNil := eq(m.Term, intLit(0))
+				for _, hn := range []string{"Map$", "MapHas$"} {
+					for name, h := range st.heaps {
+						if strings.HasPrefix(name, hn) && keep.heaps[name] != nil && keep.heaps[name] != h {
+							st.heaps[name] = ite(isNil, keep.heaps[name], h)
+						}
+					}
+				}
+			}
 		}
 		return nil
 	case "min", "max":
@@ -429,6 +446,11 @@ func hookKeys(fn *types.Func) []string {
 	if i := strings.Index(k, "."); i >= 0 {
 		keys = append(keys, k[i+1:])
 	}
+	// monitors name a callee as the source does (maps.Clone), whichever
+	// package of that name it is
+	if strings.HasPrefix(k, "xexp") {
+		keys = append(keys, strings.TrimPrefix(k, "xexp"))
+	}
 	return keys
 }
 
@@ -570,11 +592,24 @@ func (ex *Exec) applyFunc(st *State, fn *types.Func, args []*Val, e *ast.CallExp
 		} else {
 			ex.W.Abstr["library function without contract: "+key+" (result unconstrained; no effect on caller-visible state assumed)"] = true
 		}
-		// known writers
-		if libWriters[key] {
-			for _, a := range args {
+		// a library function without a contract may write through its slice
+		// arguments unless it is known not to (libReaders)
+		if libWriters[key] || (u == nil && !libReaders[key]) {
+			// the slice packed implicitly for a variadic parameter is a
+			// temporary nobody else can see
+			packed := -1
+			if e != nil && sig.Variadic() && e.Ellipsis == token.NoPos {
+				packed = len(args) - 1
+			}
+			for i, a := range args {
+				if i == packed && !libWriters[key] {
+					continue
+				}
 				if a.Term != nil && a.Term.S == SSlice {
 					ex.havocSliceMem(st, a)
+					if !libWriters[key] {
+						ex.W.Abstr["library function without contract: "+key+" is assumed to be able to overwrite the elements of its slice arguments"] = true
+					}
 				}
 			}
 		}
@@ -606,6 +641,21 @@ var pureLib = map[string]bool{
 	"x509.MarshalPKIXPublicKey": true, "base64.Encoding.DecodeString": true, "x509.ParseCertificate": true,
 	"fs.FileMode.IsRegular": true, "fs.FileInfo.Mode": true, "fs.FileInfo.IsDir": true, "fs.FileInfo.ModTime": true,
 	"time.Time.IsZero": true, "time.Time.Add": true, "os.File.Fd": true, "os.Getenv": true,
+}
+
+// libReaders: library functions known not to write through slice arguments.
+var libReaders = map[string]bool{
+	// io.Writer: "Write must not modify the slice data, even temporarily"
+	"io.Writer.Write": true, "io.<iface>.Write": true, "bytes.Buffer.Write": true, "os.File.Write": true, "bufio.Writer.Write": true,
+	"os.WriteFile": true, "io.WriteString": true,
+	// fmt / log / slog read their operands
+	"fmt.Fprintf": true, "fmt.Sprintf": true, "fmt.Errorf": true, "fmt.Fprint": true, "fmt.Fprintln": true, "fmt.Sprint": true,
+	"log.Printf": true, "log.Fatalf": true, "log.Print": true,
+	"slog.Logger.Info": true, "slog.Logger.Error": true, "slog.Logger.Debug": true, "slog.Logger.Warn": true, "slog.Logger.With": true, "slog.Group": true,
+	"cmp.Or": true, "bytes.Equal": true, "bytes.NewReader": true, "bytes.NewBuffer": true, "subtle.ConstantTimeCompare": true,
+	"bytes.HasPrefix": true, "bytes.HasSuffix": true, "bytes.TrimSpace": true, "bytes.Trim": true, "bytes.Count": true, "bytes.Contains": true,
+	"pem.EncodeToMemory": true, "pem.Decode": true, "txtar.Parse": true, "txtar.Format": true, "tls.X509KeyPair": true,
+	"x509.ParseCertificate": true, "x509.CreateCertificate": true, "sha256.Sum256": true, "hex.EncodeToString": true, "strings.Join": true,
 }
 
 var libWriters = map[string]bool{
